@@ -214,10 +214,15 @@ int main(int argc, char** argv) {
     };
     auto units_of = [](const std::string& v) { std::string r; static const char* d = "0123456789abcdef"; for (unsigned char c : v) { if (!r.empty()) r += ','; if (c >> 4) r += d[c >> 4]; r += d[c & 15]; } return r.empty() ? std::string("-") : r; };
     long fail_states = 0;
+    std::size_t sci = 0;
     for (const auto& sc : set_cases) {
+        // every other case works on a COPY of the parsed url: its string has no reserve (capacity == size), so the edit
+        // itself must allocate and the failure lands after the first in-place writes, not before them
+        const bool on_copy = (sci++ % 2) == 1;
         for (long n = 0; n < 400; ++n) {
-            upa::url* x = new upa::url();
-            x->parse(sc.url, nullptr);
+            upa::url parsed;
+            parsed.parse(sc.url, nullptr);
+            upa::url* x = on_copy ? new upa::url(parsed) : new upa::url(std::move(parsed));
             const std::string before = raw_state(*x);
             bool threw = false;
             {
